@@ -14,6 +14,7 @@ Writes the file only when its content changes.
 import sys, os, json, re
 sys.path.insert(0, os.path.dirname(__file__))
 from tr_cint_c12 import *
+import tr_loops_c12
 
 TU = r'''
 #define NDEBUG 1
@@ -375,6 +376,17 @@ def main(repo, out, work):
     if len(bodies) != 1:
         raise TranslateError('%d bodies of LinTerms::sort_terms' % len(bodies))
     skels.append(('skel_LinTerms_sort_terms', skeleton(body_of(bodies[0]))))
+    # round 7: the same function translated semantically (vector/map loops -> folds over lists, exact arithmetic)
+    ldocs = clang_dump(tu6, 'mp::LinTerms', [os.path.join(repo, 'include'), os.path.join(repo, 'src')])
+    for dd in ldocs:
+        prune_comments(dd)
+    lms = [b for dd in ldocs for b in find_nodes(dd, lambda n: n.get('kind') == 'CXXMethodDecl' and n.get('name') in ('sort_terms', 'size')
+                                                 and any(c.get('kind') == 'CompoundStmt' for c in n.get('inner', [])))]
+    lsz = [m for m in lms if m['name'] == 'size']
+    lst = [m for m in lms if m['name'] == 'sort_terms']
+    if len(lsz) != 1 or len(lst) != 1:
+        raise TranslateError('LinTerms: %d size() and %d sort_terms() bodies' % (len(lsz), len(lst)))
+    loop_text, loop_params = tr_loops_c12.LoopFn(lst[0], 'LinTerms_sort_terms', tr_loops_c12.size_field(lsz[0])).translate()
     o = ['/- GENERATED by translators/gen_objfilter.py from include/mp/nl-reader.h, solver-base.h, solver-io.h.',
          '   Do not edit: regenerated on every check run.  Parameters: p_* declared parameters, f_* fields of `this`',
          '   (or of the member object the call goes through), v_* results of virtual calls on `this`,',
@@ -395,6 +407,9 @@ def main(repo, out, work):
         sig[name] = params
     for name, steps in skels:
         o.append('def %s : List String := [\n  %s]\n' % (name, ',\n  '.join(lean_str(s) for s in steps)))
+    o.append('/-! ### `LinTerms::sort_terms` (src/std_constr.cc): loops over the two vectors and a local `std::map`, exact arithmetic -/')
+    o.append(tr_loops_c12.PRELUDE)
+    o.append(loop_text)
     o.append('/-- driver table: name, arity, function on an argument list (wrong arity -> ub) -/')
     o.append('def table : List (String × Nat × (List Int → Outcome Int)) := [')
     ent = []
